@@ -20,7 +20,7 @@ PROP = dict(
                  "always the std::string overload of communicate (a string literal binds to the (const void*, size_t, uint64_t) overload)",
                  "communicate timeouts are exercised only with a child that keeps stdout open",
                  "deadlines that must not expire are 60 s; expiring ones 100..300 ms",
-                 "deadlock verdict: no change of rchar+wchar in /proc/<pid>/io of worker and child for 10 s plus the sleeps the case asks for"],
+                 "deadlock verdict: worker and child all blocked (no process runnable) with no change of rchar+wchar in /proc/<pid>/io and no CPU time consumed for 10 s plus the sleeps the case asks for; runaway verdict: more than 6x the case's I/O volume + 64 MiB moved, or more than 90 s of CPU consumed"],
     min_evaluations_quick=400,
     technique=("property-based testing of real child processes: rapidcheck-generated child scripts and parent delay plans "
                "(-Wl,--wrap=fork,waitpid,poll,read,write), byte-exact output model (pattern bytes as a function of stream and offset), "
